@@ -1,4 +1,5 @@
-import SqiProofs.CurveDblmul
+import SqiProofs.CurveIsom
+import SqiProofs.BasisAlg
 
 /-! # C08 — x-only Montgomery curve arithmetic implements the elliptic-curve group law
 
@@ -14,6 +15,7 @@ models of `SqiModel.Ladder` (run against the C functions by the correspondence h
 formulas. Every theorem is for **all** points (incl. `∞` and 2-torsion where stated), all representatives, and bit
 lists / scalars of **any length**. -/
 
+set_option linter.unusedSectionVars false
 namespace SqiProps.C08
 open WeierstrassCurve SqiGen SqiModel.Ladder SqiProofs.Curve
 
@@ -164,34 +166,93 @@ theorem ec_ladder3pt_correct {a : F} (h2 : (2 : F) ≠ 0) (nbits m : Nat) (curve
   have := ladder3bits_isX h2 hA hP hQ hD (bitsLSB nbits m) hg
   rwa [valLSB_bitsLSB] at this
 
-/-! ## two-dimensional scalar multiplication (xDBLMUL) — partial -/
+/-! ## two-dimensional scalar multiplication (xDBLMUL) -/
 
-/-- FULL STATEMENT (not proved): for all `nbits`, `k l < 2^nbits`, `P Q` and `PQ = P - Q` with all differences met
-non-degenerate, `IsX ([k']P + [l']Q) (xDBLMUL nbits k l P Q PQ curve)` where `k' = k` for `k ≠ 0` and `k' = 2^nbits`
-for `k = 0` (likewise `l'`) — this is what the code computes (the even scalar is decremented with wrap-around; see
-notes/C08.md, finding "scalar 0 is treated as 2^BITS"), so the statement with `k' = k` is false for `k = 0` unless
-`[2^nbits]P = ∞`.
-PROVED PART: one applied iteration of the main loop implements, on the group, doubling of the selected register and
-the two differential additions with the swapped difference registers (`dblmulStep`, over the generated
-`select_point`, `swap_points`, `xDBL_A24_normalized`, `xADD`).
-MISSING: the recoding lemma (the digits `r` reconstruct the odd-ified scalars for both parities) and the composition
-of the steps into the global invariant; the model `SqiModel.Ladder.xDBLMULgen` is tied to the C code by the
-correspondence harness and compared with the affine oracle on every run (both variants). -/
-theorem xDBLMUL_step_partial {a : F} (h2 : (2 : F) ≠ 0) {A24 : EcPoint F} (hA : 4 * A24.x = a + 2)
-    (st : DState F) (r0 r1 : Bool) (M0 M1 M2 : (mont a).Point)
-    (h0 : IsX M0 st.R0.x st.R0.z) (h1 : IsX M1 st.R1.x st.R1.z) (h2' : IsX M2 st.R2.x st.R2.z)
-    (hd1 : IsX ((if r1 then M1 else M0) - (if r1 then M2 else M1))
-      (if r1 then st.D1b else st.D1a).x (if r1 then st.D1b else st.D1a).z)
-    (hd1x : (if r1 then st.D1b else st.D1a).x ≠ 0) (hd1z : (if r1 then st.D1b else st.D1a).z ≠ 0)
-    (hd2 : IsX (M0 - M2) st.D2a.x st.D2a.z) (hd2x : st.D2a.x ≠ 0) (hd2z : st.D2a.z ≠ 0) :
-    let st' := dblmulStep A24 st (r0, r1) true
-    let S := if r0 && r1 then M2 else if xor r0 r1 then M1 else M0
-    IsX (S + S) st'.R0.x st'.R0.z ∧
-    IsX ((if r1 then M1 else M0) + (if r1 then M2 else M1)) st'.R1.x st'.R1.z ∧
-    IsX (M0 + M2) st'.R2.x st'.R2.z ∧
-    (st'.D1a, st'.D1b) = (if r1 then (st.D1b, st.D1a) else (st.D1a, st.D1b)) ∧
-    (st'.D2a, st'.D2b) = (if xor r0 r1 then (st.D2b, st.D2a) else (st.D2a, st.D2b)) :=
-  dblmulStep_ok h2 hA st r0 r1 M0 M1 M2 h0 h1 h2' hd1 hd1x hd1z hd2 hd2x hd2z
+/-- **xDBLMUL, whole function, any `nbits > 0` and any scalars.** The model `SqiModel.Ladder.xDBLMUL` (recoding loop,
+initialisation, main loop over the generated `select_point`, `swap_points`, `xDBL_A24_normalized`, `xADD`, output
+selection) returns `x([k']P + [l']Q)` where `k' = chainScalar nbits k` is `k mod 2^nbits` when that is non-zero and
+`2^nbits` when it is zero (the even scalar is decremented with wrap-around, as `mp_sub` does): see `chainScalar_pos`,
+`chainScalar_zero`. Hypotheses: `(X:Z)` representatives of `x(P), x(Q), x(P-Q)`, and `P, Q, P+Q, P-Q ∉ {∞, (0,0)}`
+(the four difference points used by the chain). Proof: recoding lemma `recode_spec` (the digits are the sign-change
+indicators of the signed-binary expansions of the odd-ified scalars, ordered by `sigma`), per-step invariant
+`chain_step`/`cs_step` (`R0, R1, R2` = even / mixed / odd neighbours of the scalar prefixes), induction `chain_fold`. -/
+theorem xDBLMUL_correct_general {a : F} (h2 : (2 : F) ≠ 0) (nbits : Nat) (hn : 0 < nbits) (k l : Nat)
+    (curve : EcCurve F) (hA : curve.A = a * curve.C) (hC : curve.C ≠ 0)
+    (hflag : curve.is_A24_computed_and_normalized ≠ 0 → 4 * curve.A24.x = a + 2)
+    (Pt Qt : (mont a).Point) (P Q PQ : EcPoint F)
+    (hP : IsX Pt P.x P.z) (hQ : IsX Qt Q.x Q.z) (hD : IsX (Pt - Qt) PQ.x PQ.z)
+    (nP : XNonDeg Pt) (nQ : XNonDeg Qt) (nS : XNonDeg (Pt + Qt)) (nD : XNonDeg (Pt - Qt)) :
+    IsX (chainScalar nbits k • Pt + chainScalar nbits l • Qt)
+      (xDBLMUL nbits k l P Q PQ curve).x (xDBLMUL nbits k l P Q PQ curve).z :=
+  xDBLMUL_ok h2 nbits hn k l curve (dblmulA24_ok h2 curve hA hC hflag) Pt Qt P Q PQ hP hQ hD nP nQ nS nD
+
+/-- `xDBLMUL` returns `x([k]P + [l]Q)` for all scalars `0 < k, l < 2^BITS` (odd or even, full width included). -/
+theorem xDBLMUL_correct {a : F} (h2 : (2 : F) ≠ 0) (nbits : Nat) (hn : 0 < nbits) (k l : Nat)
+    (hk0 : 0 < k) (hk : k < 2 ^ nbits) (hl0 : 0 < l) (hl : l < 2 ^ nbits)
+    (curve : EcCurve F) (hA : curve.A = a * curve.C) (hC : curve.C ≠ 0)
+    (hflag : curve.is_A24_computed_and_normalized ≠ 0 → 4 * curve.A24.x = a + 2)
+    (Pt Qt : (mont a).Point) (P Q PQ : EcPoint F)
+    (hP : IsX Pt P.x P.z) (hQ : IsX Qt Q.x Q.z) (hD : IsX (Pt - Qt) PQ.x PQ.z)
+    (nP : XNonDeg Pt) (nQ : XNonDeg Qt) (nS : XNonDeg (Pt + Qt)) (nD : XNonDeg (Pt - Qt)) :
+    IsX (k • Pt + l • Qt) (xDBLMUL nbits k l P Q PQ curve).x (xDBLMUL nbits k l P Q PQ curve).z := by
+  have := xDBLMUL_correct_general h2 nbits hn k l curve hA hC hflag Pt Qt P Q PQ hP hQ hD nP nQ nS nD
+  rwa [chainScalar_pos nbits k hn hk0 hk, chainScalar_pos nbits l hn hl0 hl] at this
+
+/-- the exact boundary of `xDBLMUL_correct` (known finding "scalar 0 is treated as 2^BITS"): for `k = 0` the result is
+`x([2^nbits]P + [l]Q)`; it is `x([l]Q)` exactly when `[2^nbits]P = ∞` (2-power torsion, as in the callers). -/
+theorem xDBLMUL_zero_scalar {a : F} (h2 : (2 : F) ≠ 0) (nbits : Nat) (hn : 0 < nbits) (l : Nat)
+    (hl0 : 0 < l) (hl : l < 2 ^ nbits)
+    (curve : EcCurve F) (hA : curve.A = a * curve.C) (hC : curve.C ≠ 0)
+    (hflag : curve.is_A24_computed_and_normalized ≠ 0 → 4 * curve.A24.x = a + 2)
+    (Pt Qt : (mont a).Point) (P Q PQ : EcPoint F)
+    (hP : IsX Pt P.x P.z) (hQ : IsX Qt Q.x Q.z) (hD : IsX (Pt - Qt) PQ.x PQ.z)
+    (nP : XNonDeg Pt) (nQ : XNonDeg Qt) (nS : XNonDeg (Pt + Qt)) (nD : XNonDeg (Pt - Qt)) :
+    IsX (2 ^ nbits • Pt + l • Qt) (xDBLMUL nbits 0 l P Q PQ curve).x (xDBLMUL nbits 0 l P Q PQ curve).z := by
+  have := xDBLMUL_correct_general h2 nbits hn 0 l curve hA hC hflag Pt Qt P Q PQ hP hQ hD nP nQ nS nD
+  rwa [chainScalar_zero, chainScalar_pos nbits l hn hl0 hl] at this
+
+/-- **xDBLMUL_bounded, whole function**: the main loop is applied only for digit indices `≤ b`
+(`b = f + 2 + (BITS - TORSION_PLUS_EVEN_POWER)` in the C code). If the odd-ified scalars are `< 2^(b+1)` the skipped
+iterations leave the state untouched and the result is the same as for `xDBLMUL`. (For `k = 0` the odd-ified scalar is
+`2^nbits - 1`, which violates the hypothesis: this is why `ec_biscalar_mul_bounded` replaces a zero scalar.) -/
+theorem xDBLMUL_bounded_correct {a : F} (h2 : (2 : F) ≠ 0) (nbits : Nat) (hn : 0 < nbits) (b k l : Nat)
+    (curve : EcCurve F) (hA : curve.A = a * curve.C) (hC : curve.C ≠ 0)
+    (hflag : curve.is_A24_computed_and_normalized ≠ 0 → 4 * curve.A24.x = a + 2)
+    (hkb : oddify nbits k < 2 ^ (b + 1)) (hlb : oddify nbits l < 2 ^ (b + 1))
+    (Pt Qt : (mont a).Point) (P Q PQ : EcPoint F)
+    (hP : IsX Pt P.x P.z) (hQ : IsX Qt Q.x Q.z) (hD : IsX (Pt - Qt) PQ.x PQ.z)
+    (nP : XNonDeg Pt) (nQ : XNonDeg Qt) (nS : XNonDeg (Pt + Qt)) (nD : XNonDeg (Pt - Qt)) :
+    IsX (chainScalar nbits k • Pt + chainScalar nbits l • Qt)
+      (xDBLMULgen nbits (some b) k l P Q PQ curve).x (xDBLMULgen nbits (some b) k l P Q PQ curve).z :=
+  xDBLMUL_bounded_ok h2 nbits hn b k l curve (dblmulA24_ok h2 curve hA hC hflag) hkb hlb Pt Qt P Q PQ hP hQ hD nP nQ nS nD
+
+/-- **ec_biscalar_mul_bounded** as repaired (fix 76cbdb3: a zero scalar is replaced by `2^f`): for points of order
+dividing `2^f` (`f < BITS`) and **all** scalars `0 ≤ k, l < 2^f` the result is `x([k]P + [l]Q)`. -/
+theorem ec_biscalar_mul_bounded_correct {a : F} (h2 : (2 : F) ≠ 0) (nbits tpe f : Nat) (hf : f < nbits) (k l : Nat)
+    (hk : k < 2 ^ f) (hl : l < 2 ^ f) (curve : EcCurve F) (hA : curve.A = a * curve.C) (hC : curve.C ≠ 0)
+    (hflag : curve.is_A24_computed_and_normalized ≠ 0 → 4 * curve.A24.x = a + 2)
+    (Pt Qt : (mont a).Point) (hoP : 2 ^ f • Pt = 0) (hoQ : 2 ^ f • Qt = 0) (P Q PQ : EcPoint F)
+    (hP : IsX Pt P.x P.z) (hQ : IsX Qt Q.x Q.z) (hD : IsX (Pt - Qt) PQ.x PQ.z)
+    (nP : XNonDeg Pt) (nQ : XNonDeg Qt) (nS : XNonDeg (Pt + Qt)) (nD : XNonDeg (Pt - Qt)) :
+    IsX (k • Pt + l • Qt) (biscalarMulBounded nbits tpe f k l P Q PQ curve).x
+      (biscalarMulBounded nbits tpe f k l P Q PQ curve).z :=
+  biscalarMulBounded_ok h2 nbits tpe f hf k l hk hl curve (dblmulA24_ok h2 curve hA hC hflag) Pt Qt hoP hoQ P Q PQ
+    hP hQ hD nP nQ nS nD
+
+/-- the effective scalar on small instances: `0 ↦ 2^8`, everything else unchanged; odd-ification of even scalars -/
+example : chainScalar 8 0 = 256 ∧ chainScalar 8 6 = 6 ∧ chainScalar 8 255 = 255 ∧ oddify 8 6 = 5 ∧ oddify 8 0 = 255 := by
+  decide
+
+/-- the recoding of `(k, l) = (13, 6)` with 5 bits: digits (least significant first), final `sigma[0]`, parity flags -/
+example : (recode 5 13 6).r = [(true, true), (true, true), (false, true), (false, true), (false, false)] ∧
+    (recode 5 13 6).sigma0 = false ∧ (recode 5 13 6).mevens = true ∧ (recode 5 13 6).bothOdd = false := by
+  decide
+
+/-- one applied iteration of the main loop on the group (building block of the theorem above) -/
+theorem xDBLMUL_step {a : F} (h2 : (2 : F) ≠ 0) {A24 : EcPoint F} (hA : 4 * A24.x = a + 2)
+    (Pt Qt : (mont a).Point) (cs : CS) (st : DState F) (rr : Bool × Bool) (hG : G Pt Qt cs st) (hv : cvalid cs rr) :
+    G Pt Qt (cstep cs rr) (dblmulStep A24 st rr true) :=
+  chain_step h2 hA Pt Qt cs st rr hG hv
 
 /-! ## repeated doubling -/
 
@@ -251,6 +312,40 @@ theorem ADD_correct_generic {a : F} (AC : EcCurve F) (hA : AC.A = a)
 /-- non-vacuity: `jac_init` is a canonical `∞`, and `(2·9, 4·27, 3)` a canonical representative of `P₀ = (2,4)` -/
 example : IsJacC (0 : (mont (3 / 2 : ℚ)).Point) (jac_init : JacPoint ℚ) := jac_init_isJacC
 
+/-! ### whole Jacobian programs (register programs of ADD / DBL / jac_neg; DBLMUL, DBLMUL2, DBLMUL_generic) -/
+
+/-- **Every program.** Registers in canonical form, a program that never doubles a point of order 2 (`progGood`: for
+`ADD` of equal points and for `DBL`, the argument is `∞` or has `2A ≠ ∞` — the known finding
+"Jacobian:ADD-after-DBL-of-2-torsion" is exactly the complement): the C-shaped run `jacRun` (over the generated `ADD`,
+`DBL`, `jac_neg`) and the group-law run either both reject the program or produce corresponding register files, all
+registers again canonical. One induction over the program, no bound on its length. -/
+theorem jacRun_whole_program {a : F} (h2 : (2 : F) ≠ 0) (curve : EcCurve F) (hA : curve.A = a)
+    (prog : List (Nat × Nat × Nat)) (l : List ((mont a).Point × JacPoint F)) (hl : RegsOk l)
+    (hg : progGood (l.map Prod.fst) prog) :
+    (jacRun curve (l.map Prod.snd) prog = none ∧ ptRun (l.map Prod.fst) prog = none) ∨
+    ∃ l', RegsOk l' ∧ jacRun curve (l.map Prod.snd) prog = some (l'.map Prod.snd) ∧
+      ptRun (l.map Prod.fst) prog = some (l'.map Prod.fst) :=
+  jacRun_correct h2 curve hA prog l hl hg
+
+theorem jacSeq_value {a : F} (h2 : (2 : F) ≠ 0) (curve : EcCurve F) (hA : curve.A = a)
+    (prog : List (Nat × Nat × Nat)) (l : List ((mont a).Point × JacPoint F)) (hl : RegsOk l)
+    (hg : progGood (l.map Prod.fst) prog) (J : JacPoint F) (hJ : jacSeq curve (l.map Prod.snd) prog = some J) :
+    ∃ ps A, ptRun (l.map Prod.fst) prog = some ps ∧ ps.getLast? = some A ∧ IsJacC A J :=
+  jacSeq_correct h2 curve hA prog l hl hg J hJ
+
+/-- `DBLMUL` (`nbits = 64`), `DBLMUL2` (128), `DBLMUL_generic` (`64·size`): the result is `[k]P + [l]Q` as a point in
+canonical form, for any `nbits`, provided no intermediate doubling hits a point of order 2 (`dblmulGood`, a condition
+on the group elements `[k_prefix]P + [l_prefix]Q`). Partial sums may pass through `∞` (e.g. `Q = -P`). -/
+theorem jacDBLMUL_correct {a : F} (h2 : (2 : F) ≠ 0) (curve : EcCurve F) (hA : curve.A = a) (nbits k l : Nat)
+    (P Q : (mont a).Point) (JP JQ : JacPoint F) (hP : IsJacC P JP) (hQ : IsJacC Q JQ) (hadd : AddGood P Q)
+    (hg : dblmulGood P Q 0 ((bitsMSB nbits k).zip (bitsMSB nbits l))) :
+    IsJacC ((k % 2 ^ nbits) • P + (l % 2 ^ nbits) • Q) (jacDBLMUL nbits k l JP JQ curve) :=
+  jacDBLMUL_ok h2 curve hA nbits k l P Q JP JQ hP hQ hadd hg
+
+/-- non-vacuity: the program `[NEG 0; ADD 0 1]` (`P + (-P)`) on `P = ∞` is good -/
+example : progGood ([0] : List (mont (3 / 2 : ℚ)).Point) [(3, 0, 0), (1, 0, 1)] := by
+  simp [progGood, opGood, ptStep, AddGood]
+
 /-- `ec_j_inv` returns Mathlib's `WeierstrassCurve.j` of the Montgomery curve, for every `(A : C)` with
 `A² ≠ 4C²`. -/
 theorem ec_j_inv_correct {a : F} (h2 : (2 : F) ≠ 0) (curve : EcCurve F) (hA : curve.A = a * curve.C)
@@ -273,6 +368,105 @@ theorem iso_maps_curve {a a' s r x : F} (h1 : s ^ 2 * (3 * r ^ 2 + 2 * a * r + 1
     (h3 : r ^ 3 + a * r ^ 2 + r = 0) :
     (s * (x - r)) ^ 3 + a' * (s * (x - r)) ^ 2 + s * (x - r) = s ^ 3 * (x ^ 3 + a * x ^ 2 + x) :=
   iso_on_curve h1 h2 h3
+
+/-- **j is an isomorphism invariant** (used by C20): two Montgomery coefficients related by a map `x ↦ s (x - r)`
+satisfying the conditions of `iso_maps_curve` have the same `256 (a²-3)³/(a²-4)` — so `ec_j_inv` (by `ec_j_inv_correct`)
+returns the same value on both curves, whatever `(A : C)` representatives. -/
+theorem j_invariant_under_isomorphism {a a' s r : F} (h1 : s ^ 2 * (3 * r ^ 2 + 2 * a * r + 1) = 1)
+    (h2 : a' = s * (a + 3 * r)) (h3 : r ^ 3 + a * r ^ 2 + r = 0) (hns : a ^ 2 - 4 ≠ 0) (hns' : a' ^ 2 - 4 ≠ 0) :
+    256 * (a' ^ 2 - 3) ^ 3 / (a' ^ 2 - 4) = 256 * (a ^ 2 - 3) ^ 3 / (a ^ 2 - 4) :=
+  iso_j_eq h1 h2 h3 hns hns'
+
+theorem ec_j_inv_isomorphism_invariant {a a' s r : F} (h2c : (2 : F) ≠ 0)
+    (h1 : s ^ 2 * (3 * r ^ 2 + 2 * a * r + 1) = 1) (h2 : a' = s * (a + 3 * r)) (h3 : r ^ 3 + a * r ^ 2 + r = 0)
+    (hns : a ^ 2 - 4 ≠ 0) (hns' : a' ^ 2 - 4 ≠ 0) (E E' : EcCurve F) (hA : E.A = a * E.C) (hC : E.C ≠ 0)
+    (hA' : E'.A = a' * E'.C) (hC' : E'.C ≠ 0) : ec_j_inv E' = ec_j_inv E := by
+  have e := (ec_j_inv_ok h2c E hA hC hns).1
+  have e' := (ec_j_inv_ok h2c E' hA' hC' hns').1
+  have c := iso_j_cross h1 h2 h3
+  have : ec_j_inv E' * (a' ^ 2 - 4) * (a ^ 2 - 4) = ec_j_inv E * (a' ^ 2 - 4) * (a ^ 2 - 4) := by
+    linear_combination (a ^ 2 - 4) * e' - (a' ^ 2 - 4) * e + 256 * c
+  exact mul_right_cancel₀ hns' (mul_right_cancel₀ hns this)
+
+/-- **ec_isomorphism**: for `(A : C)`, `(A' : C')` with `a² ≠ 3`, equal j-invariants (cross-multiplied) and `sqrt`
+correct on the one ratio the code takes a root of, the returned `(Nx, Nz, D)` satisfies `D ≠ 0` and, with `s = Nx/D`:
+`3 - a'² = s²(3 - a²)`, `2a'³ - 9a' = s³(2a³ - 9a)` (the code's sign test), `Nz/D = (a' - s a)/3`. -/
+theorem ec_isomorphism_correct (h3 : (3 : F) ≠ 0) (sqrt : F → F) (E E' : EcCurve F) (a a' : F)
+    (hC : E.C ≠ 0) (hC' : E'.C ≠ 0) (hA : E.A = a * E.C) (hA' : E'.A = a' * E'.C) (hp : 3 - a ^ 2 ≠ 0)
+    (hj : (a' ^ 2 - 3) ^ 3 * (a ^ 2 - 4) = (a ^ 2 - 3) ^ 3 * (a' ^ 2 - 4))
+    (hsq : ∀ t : F, t = (3 - a' ^ 2) / (3 - a ^ 2) → sqrt t ^ 2 = t) :
+    let iso := ec_isomorphism sqrt E E'
+    iso.D ≠ 0 ∧ 3 - a' ^ 2 = (iso.Nx / iso.D) ^ 2 * (3 - a ^ 2) ∧
+    2 * a' ^ 3 - 9 * a' = (iso.Nx / iso.D) ^ 3 * (2 * a ^ 3 - 9 * a) ∧
+    iso.Nz / iso.D = (a' - iso.Nx / iso.D * a) / 3 :=
+  ec_isomorphism_ok h3 sqrt E E' a a' hC hC' hA hA' hp hj hsq
+
+/-- …and such constants define a map `x ↦ s x - (a' - s a)/3` (what `ec_iso_eval` applies, `ec_iso_eval_correct`) that
+sends `mont a` onto `mont a'`, and they force equal j-invariants (so the hypothesis `hj` above is also necessary). -/
+theorem ec_isomorphism_maps_curve {a a' s x : F} (h3 : (3 : F) ≠ 0) (H1 : 3 - a' ^ 2 = s ^ 2 * (3 - a ^ 2))
+    (H2 : 2 * a' ^ 3 - 9 * a' = s ^ 3 * (2 * a ^ 3 - 9 * a)) :
+    (s * x - (a' - s * a) / 3) ^ 3 + a' * (s * x - (a' - s * a) / 3) ^ 2 + (s * x - (a' - s * a) / 3)
+      = s ^ 3 * (x ^ 3 + a * x ^ 2 + x) ∧
+    (a' ^ 2 - 3) ^ 3 * (a ^ 2 - 4) = (a ^ 2 - 3) ^ 3 * (a' ^ 2 - 4) :=
+  ⟨iso_maps_curve_sw h3 H1 H2, iso_j_cross_sw h3 H1 H2⟩
+
+/-! ## lifting x-only points to (x, y): recover_y, lift_point, lift_basis (Okeya–Sakurai), difference_point -/
+
+/-- `recover_y` returns a y-coordinate for `x` whenever `sqrt` returns a square root of its argument (which is a square
+exactly when `x` is the abscissa of a rational point) -/
+theorem recover_y_correct (sqrt : F → F) (x : F) (E : EcCurve F)
+    (hs : sqrt (x * x * E.A + x + x * x * x) ^ 2 = x * x * E.A + x + x * x * x) :
+    recover_y sqrt x E ^ 2 = x ^ 3 + E.A * x ^ 2 + x :=
+  recover_y_ok sqrt x E hs
+
+theorem lift_point_correct (sqrt : F → F) (Q : EcPoint F) (E : EcCurve F) (a x : F) (hC : E.C ≠ 0) (hA : E.A = a * E.C) :
+    (Q.z = 0 → (lift_point sqrt Q E).1 = ⟨1, 1, 0⟩ ∧ (lift_point sqrt Q E).2.1 = Q ∧ (lift_point sqrt Q E).2.2 = E) ∧
+    (Q.z ≠ 0 → Q.x = x * Q.z →
+      (lift_point sqrt Q E).1.x = x ∧ (lift_point sqrt Q E).1.z = 1 ∧
+      (lift_point sqrt Q E).1.y = recover_y sqrt x ⟨a, 1, E.A24, E.is_A24_computed_and_normalized⟩ ∧
+      (lift_point sqrt Q E).2.1 = ⟨x, 1⟩ ∧ (lift_point sqrt Q E).2.2.A = a ∧ (lift_point sqrt Q E).2.2.C = 1) :=
+  lift_point_ok sqrt Q E a x hC hA
+
+/-- **lift_basis (Okeya–Sakurai).** Given `x(P), x(Q), x(P-Q)`: `P` is lifted with `recover_y`; if that `y(P)` is a
+non-zero square root of the right-hand side, then the returned Jacobian `Q` represents exactly the lift `(x_Q, y_Q)` for
+which `P - Q` has the given third abscissa — the recovered y-coordinates are consistent with the basis. -/
+theorem lift_basis_correct {a : F} (h2 : (2 : F) ≠ 0) (sqrt : F → F) (B : EcBasis F) (E : EcCurve F) (x1 x2 y2 : F)
+    (hPz : B.P.z ≠ 0) (hC : E.C ≠ 0) (hA : E.A = a * E.C) (hP : B.P.x = x1 * B.P.z)
+    (hp : (mont a).Nonsingular x1 (lift_basis sqrt B E).1.y) (hq : (mont a).Nonsingular x2 y2)
+    (hx : x1 ≠ x2) (hy : (lift_basis sqrt B E).1.y ≠ 0)
+    (hQ : IsX (Affine.Point.some x2 y2 hq) B.Q.x B.Q.z)
+    (hD : IsX (Affine.Point.some x1 _ hp - Affine.Point.some x2 y2 hq) B.PmQ.x B.PmQ.z) :
+    IsJac (Affine.Point.some x1 _ hp) (lift_basis sqrt B E).1 ∧
+    IsJac (Affine.Point.some x2 y2 hq) (lift_basis sqrt B E).2.1 :=
+  lift_basis_isJac h2 sqrt B E x1 x2 y2 hPz hC hA hP hp hq hx hy hQ hD
+
+/-- `difference_point` (basis.c): proved by engineer a9 over the generated definition (`SqiProps.C10`,
+`difference_point_is_xPmQ_or_xPpQ`, `difference_point_generated`); re-exported here: the returned `(X : Z)` is the abscissa
+of `P - Q` or of `P + Q` for any square root `s` of the radicand. -/
+theorem difference_point_correct (A xP yP xQ yQ s : F) (hne : xP ≠ xQ)
+    (hP : yP ^ 2 = xP ^ 3 + A * xP ^ 2 + xP) (hQ : yQ ^ 2 = xQ ^ 3 + A * xQ ^ 2 + xQ)
+    (hs : s ^ 2 = SqiProofs.BasisAlg.diffRad A xP xQ) :
+    (s + SqiProofs.BasisAlg.diffT1 A xP xQ) / SqiProofs.BasisAlg.diffZ xP xQ
+        = ((yQ - yP) / (xQ - xP)) ^ 2 - A - xP - xQ ∨
+    (s + SqiProofs.BasisAlg.diffT1 A xP xQ) / SqiProofs.BasisAlg.diffZ xP xQ
+        = ((-yQ - yP) / (xQ - xP)) ^ 2 - A - xP - xQ :=
+  SqiProofs.BasisAlg.difference_point_affine A xP yP xQ yQ s hne hP hQ hs
+
+/-! ## the exact boundary: the four known findings are the complement of the theorems above -/
+
+/-- (finding 1) base point `(0 : Z)` = the 2-torsion point `(0,0)`, excluded from `xMUL_correct` by `P.x ≠ 0`: the ladder
+returns `Z = 0` for every scalar, which is right for even and wrong for odd scalars (`T00_odd`). -/
+theorem xMUL_T00 (A24 : EcPoint F) (Z : F) (bits : List Bool) : (xMULbits bits ⟨0, Z⟩ A24).z = 0 :=
+  xMULbits_T00 A24 Z bits
+
+theorem T00_odd (a : F) (n : Nat) (hn : n % 2 = 1) (X : F) :
+    ¬ IsX (n • Affine.Point.some 0 0 (nonsingular_T00 a)) X 0 :=
+  T00_odd_multiple a n hn X
+
+/-- (finding 4) `DBL` on a point of order 2: `Z = 0` but `X ≠ 0` — the one exception in `DBL_canonical` / `ADD_correct`. -/
+theorem DBL_order2 {a : F} (AC : EcCurve F) (hA : AC.A = a) (x : F) (h : (mont a).Nonsingular x 0)
+    (J : JacPoint F) (hJ : IsJac (Affine.Point.some x 0 h) J) : (DBL J AC).z = 0 ∧ (DBL J AC).x ≠ 0 :=
+  DBL_order2_noncanonical AC hA x h J hJ
 
 /-! ## non-vacuity: a concrete curve and point satisfying the hypotheses (over ℚ) -/
 
